@@ -35,11 +35,11 @@ class NodeIDAllocator():
     def alloc_perm(self):
         if len(self._perm_freed) > 0:
             x = min(self._perm_freed)
-            self._perm_free.remove(x)
+            self._perm_freed.remove(x)
         else:
             x = self._perm
             self._perm = min(x + 1, self._init_temp - 1)
-        return x | self.mask
+        return x | self._mask
 
     def free_perm(self, id):
         # // should not add a temp node id to the freed-permanent collection
